@@ -364,6 +364,8 @@ inductive MatchStmt where
   | flowRef (f : FlowObj) (member : String) (args : List (String × Val))          -- match $flow_ref.Finished(args)
   | actionCtor (name : String) (ctorArgs : List (String × Val)) (member : String) (args : List (String × Val))
                                                                                   -- match SomeAction(ctor).Finished(args)
+  | flowCtor (flowId : String) (paramDefaults : List (String × Val)) (member : String) (args : List (String × Val))
+                                                                                  -- match some_flow(args).Finished(args')
   | bare (name : String) (isLower : Bool) (args : List (String × Val))            -- match SomeEvent(args)
 
 open NemoVerif.Generated.C04 in
@@ -375,9 +377,25 @@ def refEvent : MatchStmt → Option Ev
     -- a helper Action object is created; its uid is removed from the reference event
     (ActionObj.matchEvent { uid := "", name := name, startArgs := ctorArgs } member args).map
       fun e => { e with actionUid := none }
+  | .flowCtor flowId paramDefaults member args =>
+    -- a helper FlowState is created from the flow's configuration (uid ""): its parameters carry their default
+    -- values; the two instance uids are deleted from the reference event and so is the flow reference
+    (FlowObj.matchEvent { uid := "", flowId := flowId, args := paramDefaults } member args).map
+      fun e => { e with
+        args := e.args.filter (fun kv => kv.1 ≠ "source_flow_instance_uid" ∧ kv.1 ≠ "flow_instance_uid"),
+        flowUid := none }
   | .bare name isLower args =>
     if isLower ∨ name ∈ internalEventsAll then some { kind := .internal, name := name, args := args }
     else if (name.splitOn "Action").length > 1 then some { kind := .action, name := name, args := args }
     else some { kind := .plain, name := name, args := args }
+
+/-- `_compute_event_matching_score`: `if not isinstance(ref_event, type(event)): return 0.0` — `InternalEvent` and
+    `ActionEvent` are subclasses of `Event`, unrelated to each other. -/
+def kindIsInstance (ref ev : EvKind) : Bool :=
+  ev == .plain || ref == ev
+
+def matchingScore (rx : Rx) (startArgs : String → Option (List (String × Val)))
+    (ev ref : Ev) (priority : Option (Int × Nat)) : EvRes :=
+  if kindIsInstance ref.kind ev.kind then eventScore rx startArgs ev ref priority else .zero
 
 end NemoVerif.Match
